@@ -35,6 +35,11 @@ def strat(tier):
         'big_n': st.just(1),
         # location of the first parameter's prior: a parameter whose mean is huge relative to its spread (|mean| / sd ~ 1e5)
         'shift': st.sampled_from([0.0, 0.0, 1e5]),
+        # the threshold list in decreasing order (usual) or as drawn (any list is a valid schedule: round r uses thresholds[r])
+        'ths_sorted': st.sampled_from([True, True, False]),
+        # a rounding simulator: integer-valued discrepancies with many ties, thresholds that can be exactly 0 (exact matching)
+        'simkind': st.sampled_from(['float', 'float', 'coarse']),
+        'zero_last': st.booleans(),
     })
 
 
@@ -108,7 +113,7 @@ def build(case):
             p = elfi.Prior('uniform', ps[-1], 1, model=m, name=pn)
         ps.append(p)
     w = case['width']
-    S = elfi.Simulator(partial(models.sim, kind='float', width=w), *ps, observed=np.zeros((1, w)) if w > 1 else np.zeros(1), model=m, name='S')
+    S = elfi.Simulator(partial(models.sim, kind=case.get('simkind', 'float'), width=w), *ps, observed=np.zeros((1, w)) if w > 1 else np.zeros(1), model=m, name='S')
     S.uses_meta = True
     sums = [elfi.Summary(partial(models.summ, col=c), S, model=m, name='s%d' % c) for c in range(w)]
     elfi.Distance('euclidean', *sums, model=m, name='d')
@@ -165,7 +170,11 @@ def run_case(case):
         fin = np.sort(d[np.isfinite(d)])
     pick = lambda pct: float(fin[min(len(fin) - 1, int(len(fin) * pct / 100.0))])
     if kind == 'thresholds':
-        ths = sorted((pick(v) for v in val), reverse=True)
+        ths = [pick(v) for v in val]
+        if case.get('ths_sorted', True):
+            ths = sorted(ths, reverse=True)          # the usual decreasing schedule; otherwise the user's list as it comes
+        if case.get('simkind') == 'coarse' and case.get('zero_last') and fin is not None and (fin == 0).sum() >= 1:
+            ths[-1] = 0.0                             # exact matching in the last round (at least one of the 300 pilot draws matches exactly)
         objkw = {'thresholds': ths}
     else:
         ths = None
@@ -238,6 +247,8 @@ def _run_and_judge(case, m, n, bs, kind, val, ths, objkw, pick, ctx):
         raise Violation('C07:n_sim', 'n_sim=%r, sum over populations %r, simulator log has %d batches of %d; %s' % (res.n_sim, sum(p.n_sim for p in pops), nb, bs, ctx))
     names = res.parameter_names
     labels = ['objective=' + kind]
+    if kind == 'thresholds' and any(float(t) == 0.0 for t in objkw['thresholds']):
+        labels.append('threshold-exactly-0')
     prior_rejected = False
     for i, p in enumerate(pops):
         th = np.column_stack([p.outputs[k] for k in names])
@@ -314,7 +325,7 @@ CHECK = Check(
     P, 'exploration',
     rule=('Hypothesis-generated models with 1-3 parameters whose priors are uniform (bounded), normal (unbounded), normal-with-parent-location, '
           'uniform-with-parent-location, normal-with-parent-SCALE (hierarchical, bounded) or a user-defined elfi.Distribution with rvs+pdf only (bounded, optionally with parent location), scalar or vector simulator output; n_samples 2-16 (thorough 25; part smc-large: '
-          '257-316 particles), batch_size 1-15, 1-4 rounds given as non-increasing pilot-percentile thresholds or as quantile lists, an '
+          '257-316 particles), batch_size 1-15, 1-4 rounds given as pilot-percentile thresholds (decreasing or in any order; with the rounding simulator integer-valued incl. exactly 0) or as quantile lists, an '
           'optional continued sample() call on the same sampler with 1-2 further thresholds. Non-trivial = >= 2 rounds with a bounded or '
           'hierarchical prior.'),
     parts=[Part('smc', run_case, strategy=strat, examples={'quick': 160, 'thorough': 4800}, shards={'quick': 8, 'thorough': 16}),
